@@ -474,6 +474,21 @@ static void run_chain(case_t *c, int amode, int chmode, uint64_t chseed, result_
 	}
 	if (c->nne) br_x509_minimal_set_name_elements(xc, nes, (size_t)c->nne);
 
+	if (g_variant == 6 || g_variant == 7) {
+		/* the context is used for another validation first (the same chain, or the chain with its
+		   first certificate dropped / alone), as a TLS client does when it reconnects: what the second
+		   validation returns must not depend on that history */
+		int first = g_variant == 7 && c->ncerts > 1 ? 1 : 0;
+		int last = g_variant == 7 && c->ncerts == 1 ? 0 : c->ncerts;
+		xc->vtable->start_chain(&xc->vtable, c->sn);
+		for (i = first; i < last; i ++) {
+			xc->vtable->start_cert(&xc->vtable, (uint32_t)c->certs[i].len);
+			xc->vtable->append(&xc->vtable, c->certs[i].der, c->certs[i].len);
+			xc->vtable->end_cert(&xc->vtable);
+		}
+		(void)xc->vtable->end_chain(&xc->vtable);
+		r->ntcb = 0; memset(r->tcb, 0, sizeof r->tcb);   /* what the time callback recorded during the warm-up is not part of the result */
+	}
 	xc->vtable->start_chain(&xc->vtable, c->sn);
 	if (g_variant == 5) { xc->vtable->start_cert(&xc->vtable, 0); xc->vtable->end_cert(&xc->vtable); }
 	for (i = 0; i < c->ncerts; i ++) {
@@ -683,6 +698,22 @@ int main(int argc, char **argv)
 					break;
 				}
 			}
+		}
+
+		/* a validator context that has been used before gives the same result as a fresh one (every case, accepted or not) */
+		if ((c.chunk & 3) == 2) {
+			result_t rv;
+			for (g_variant = 6; g_variant <= 7; g_variant ++) {
+				run_chain(&c, AM_STATIC, CH_WHOLE, 0, &rv);
+				vf_stat("cmp_variant_context_reuse", 1);
+				if (!same_result(&r0, &rv)) {
+					key_of(key, sizeof key, "variant:context-reuse", &c);
+					snprintf(extra, sizeof extra, "fresh context: err=%u; context used before for %s: err=%u", r0.err,
+						g_variant == 6 ? "the same chain" : "a part of the chain", rv.err);
+					vf_viol(key, "the result of a validation depends on what the context validated before", "%s", case_desc(&c, extra));
+				}
+			}
+			g_variant = 0;
 		}
 
 		/* API-level variants on accepted chains */
